@@ -161,3 +161,88 @@ def pick_header(rng, p_default=0.5):
     """'ExpertSingle' or, with probability 1 - p_default, any of the 40 instrument sections (note decoding must not
     depend on which instrument the section belongs to)."""
     return "ExpertSingle" if rng.random() < p_default else rng.choice(all_headers())
+
+
+OTHER_BREAKS = ["\x0b", "\x0c", "\x1c", "\x1d", "\x1e", "\x85", "\u2028", "\u2029", "\r", "\r\n"]
+
+
+def vary_layout(rng, text, p=0.4, blanks=True):
+    """The same chart written differently (a parse must not depend on it): CRLF line ends (the text reaches from_file through a
+    StringIO untranslated), other str.splitlines() boundaries between lines, blank / white-space-only lines inside section bodies.
+    With probability 1 - p the text is returned unchanged.  Blank lines add warnings, so callers that judge the log pass
+    blanks=False."""
+    if rng.random() >= p:
+        return text
+    lines = text.split("\n")
+    trailing = lines and lines[-1] == ""
+    if trailing:
+        lines = lines[:-1]
+    mode = rng.choice(["crlf", "breaks", "blanks", "blanks", "mixed"] if blanks else ["crlf", "breaks", "mixed"])
+    if blanks and mode in ("blanks", "mixed"):
+        out = []
+        depth = 0
+        for l in lines:
+            out.append(l)
+            if l == "{":
+                depth = 1
+            elif l == "}":
+                depth = 0
+            if depth and rng.random() < 0.12:
+                out.append(rng.choice(["", "  ", "\t", "   "]))
+        lines = out
+    if mode == "crlf":
+        sep = lambda: "\r\n"            # noqa: E731
+    elif mode in ("breaks", "mixed"):
+        sep = lambda: rng.choice(OTHER_BREAKS) if rng.random() < 0.25 else "\n"      # noqa: E731
+    else:
+        sep = lambda: "\n"               # noqa: E731
+    return "".join(l + sep() for l in lines[:-1]) + (lines[-1] + (sep() if trailing else "") if lines else "")
+
+
+def pick_layout(rng, p=0.35):
+    """None (the text as assembled) or a seed for [laid_out]."""
+    return rng.randrange(10 ** 9) if rng.random() < p else None
+
+
+def laid_out(text, layout, blanks=True):
+    import random as _random
+    return text if layout is None else vary_layout(_random.Random(layout), text, p=1.0, blanks=blanks)
+
+
+def align_line_end(rng, text, boundary, after="[ExpertSingle]", encode=False):
+    """Insert an unknown section of filler lines in front of the file so that a line end inside the section `after` falls EXACTLY on
+    offset `boundary` (in characters, or in UTF-8 bytes with encode=True): readers that work in blocks (4 KiB, 8 KiB, 64 KiB) must not
+    care where a block ends.  (The filler is an unrecognised section: reported once, never parsed.)  Returns the text unchanged
+    when it cannot be aligned."""
+    if after not in text:
+        return text
+    size = (lambda s: len(s.encode("utf-8"))) if encode else len
+    start = text.index(after)
+    ends = [i + 1 for i in range(start, len(text)) if text[i] == "\n"]
+    ends = ends[2:-1] or ends
+    if not ends:
+        return text
+    e = rng.choice(ends)
+    frame = "[Filler]\n{\n}\n"
+    pad = boundary - size(text[:e]) - len(frame)
+    if pad < 2:
+        return text
+    body = []
+    while pad > 0:
+        k = min(pad, 64)
+        if pad - k == 1:
+            k -= 1
+        body.append("y" * (k - 1) + "\n")
+        pad -= k
+    return "[Filler]\n{\n" + "".join(body) + "}\n" + text
+
+
+DIGIT_ZEROS = [0x660, 0xFF10, 0x966, 0x6F0]
+
+
+def respell_digits(rng, line, p=0.7):
+    """The same line with its decimal numerals written in another script (Arabic-Indic, fullwidth, Devanagari, ...): `\\d` and int()
+    read them as the same numbers."""
+    import re as _re
+    z = rng.choice(DIGIT_ZEROS)
+    return _re.sub(r"[0-9]+", lambda m: "".join(chr(z + int(c)) for c in m.group(0)) if rng.random() < p else m.group(0), line)
